@@ -925,6 +925,8 @@ pub fn gen_struct(rng: &mut Rng, opts: &StructOpts) -> (Case, Vec<&'static str>)
     };
     let offs = *rng.pick(&[(0usize, 8usize), (8, 0), (0x40, 0x50), (0x50, 0x40), (16, 32)]);
     let nfuncs = if opts.allow_local_calls { rng.below(4) as usize } else { 0 };
+    // a metadata VM used with an EMPTY metadata buffer: r1 then holds the packet address
+    let mbuff_empty = kind == Kind::Mbuff && rng.chance(1, 8);
     let mut helpers: Vec<(u32, usize)> = Vec::new();
     if opts.allow_helpers {
         for _ in 0..rng.below(4) {
@@ -948,6 +950,10 @@ pub fn gen_struct(rng: &mut Rng, opts: &StructOpts) -> (Case, Vec<&'static str>)
         // prologue
         match kind {
             Kind::Raw => {
+                g.b.i(MOV64_REG, 6, 1, 0, 0);
+                cx.pkt_ok = true;
+            }
+            Kind::Mbuff if mbuff_empty => {
                 g.b.i(MOV64_REG, 6, 1, 0, 0);
                 cx.pkt_ok = true;
             }
@@ -1029,7 +1035,7 @@ pub fn gen_struct(rng: &mut Rng, opts: &StructOpts) -> (Case, Vec<&'static str>)
             c.helpers = helpers.clone();
             c.calc = opts.calc.clone();
             c.end_aligned = g.rng.chance(1, 2);
-            if kind == Kind::Mbuff {
+            if kind == Kind::Mbuff && !mbuff_empty {
                 let ml = *g.rng.pick(&[16usize, 24, 64]);
                 c.mbuff = g.rng.bytes(ml);
             }
